@@ -4,16 +4,21 @@ from __future__ import annotations
 
 from typing import Dict, List, Optional
 
+import ast
+
+import networkx as nx
+
 from .base import *  # noqa: F401,F403
 from . import tables
 from .. import boolfn
+from ..report import VIOLATED, DISCHARGED
 
 STEP = "mosaik.scheduler.step"
 GETOUT = "mosaik.scheduler.get_outputs"
 SIMPROC = "mosaik.scheduler.sim_process"
 SIMERR = "mosaik.exceptions.SimulationError"
 
-MIN_INSTANCES = 8
+MIN_INSTANCES = 16
 
 
 def is_simulation_error(ctx: Ctx, t: Term) -> bool:
@@ -35,6 +40,7 @@ def run(ctx: Ctx) -> Collector:
     _step(ctx, c)
     _outputs(ctx, c)
     _conn_error(ctx, c)
+    _raw(ctx, c)
     return c
 
 
@@ -242,3 +248,88 @@ def _conn_error(ctx: Ctx, c: Collector) -> None:
 
 
 from ..terms import call  # noqa: E402
+
+
+# --------------------------------------------------------------------------- reply integrity
+WRAPPERS = (
+    # (function, attribute of self that is forwarded to, method, what)
+    ("mosaik.simmanager.SimRunner.step", "_proxy", "send", "the step reply"),
+    ("mosaik.simmanager.SimRunner.get_data", "_proxy", "send", "the get_data reply"),
+    ("mosaik.proxies.RemoteProxy.send", "_channel", "send", "the remote reply"),
+    ("mosaik.adapters.Adapter.send", "_out", "send", "the reply"),
+    ("mosaik.adapters.V3ToV2Adapter.send", "_out", "send", "the reply"),
+    ("mosaik.adapters.V2ToV1Adapter.send", "_out", "send", "the reply"),
+)
+
+
+def _raw(ctx: Ctx, c: Collector) -> None:
+    """What scheduler.step / get_outputs validate is the simulator's reply itself: every wrapper on
+    the way (SimRunner, adapters, remote proxy) returns exactly the awaited forward -- not a
+    converted, defaulted or edited value -- and no exception handler of a wrapper ends in a normal
+    return (which would hand `None`, "no next step", to the scheduler in place of the error)."""
+    from ..cfg import RETURN
+    from ..flow import _MUTATORS
+    for qn, fld, meth, what in WRAPPERS:
+        fi = ctx.prog.functions.get(qn)
+        if fi is None:
+            raise AnalysisError(f"R11/raw: wrapper {qn} not found")
+        s = ctx.summ(qn)
+        me = T.var(fi.params[0])
+        fwd = [e for e in s.of_kind("await") if e.term[0] == "call" and e.term[1] == ("attr", ("attr", me, fld), meth)]
+        pr: List[str] = []
+        if not fwd:
+            pr.append(f"nothing is forwarded to self.{fld}.{meth}")
+        replies = {("await", e.term) for e in fwd}
+        aliases = {b.term[1] for b in s.of_kind("bind") if T.strip(b.term[2]) in replies}
+        for r in s.returns:
+            v = unalias(T.strip(r.term), s, fi)
+            if v in replies or v in aliases or (v == T.NONE and r.term == T.NONE and qn.endswith("V2ToV1Adapter.send")):
+                continue
+            pr.append(f"returns {T.show(r.term)[:70]} (line {r.lineno}) instead of {what} as received: the scheduler validates a value the simulator did not send")
+        # the reply object is not edited on the way
+        for e in s.events:
+            if e.kind == "call" and e.term[1][0] == "attr" and e.term[1][2] in _MUTATORS and (T.strip(e.term[1][1]) in replies or e.term[1][1] in aliases):
+                pr.append(f"{what} is modified ({T.show(e.term)[:60]}, line {e.lineno}) before the scheduler validates it")
+            if e.kind in ("store", "del") and e.term[1][0] == "idx" and (T.strip(e.term[1][1]) in replies or e.term[1][1] in aliases):
+                pr.append(f"{what} is modified ({T.show(e.term)[:60]}, line {e.lineno}) before the scheduler validates it")
+        # handlers: no normal way out other than an explicit return of the forward
+        g = ctx.cfg(qn)
+        normal = g.view(kinds=g.NORMAL)
+        for n in ast.walk(fi.node):
+            if not isinstance(n, ast.ExceptHandler):
+                continue
+            try:
+                hk = g.key(n)
+            except KeyError:
+                continue
+            reach = set(nx.descendants(normal, hk)) | {hk}
+            for k in reach:
+                if k in (RETURN,) or not normal.has_edge(k, RETURN):
+                    continue
+                st = g.ast_of.get(k)
+                if isinstance(st, ast.Return) and st.value is not None and not (isinstance(st.value, ast.Constant) and st.value.value is None):
+                    continue            # an explicit return: checked above as a return value
+                if isinstance(st, ast.Return) and qn.endswith("V2ToV1Adapter.send"):
+                    continue
+                pr.append(f"the handler `except {ast.unparse(n.type) if n.type is not None else ''}` (line {n.lineno}) can end without re-raising: "
+                          f"the wrapper then returns None in place of {what}, and the error of the simulator is lost")
+        c.add("raw", qn, f"{what} reaches the scheduler unchanged; handlers re-raise", VIOLATED if pr else DISCHARGED, "; ".join(sorted(set(pr))), fi.loc)
+
+    # the scheduler itself only reads the reply: for an in-process simulator it is the simulator's own object
+    for qn, meth, what in ((GETOUT, "get_data", "the get_data reply"), (STEP, "step", "the step reply")):
+        fi = ctx.func(qn)
+        s = ctx.summ(qn)
+        sim = T.var(param_by_annotation(fi, "SimRunner", 1))
+        fwd = [e for e in s.of_kind("await") if e.term[0] == "call" and e.term[1] == ("attr", sim, meth)]
+        replies = {("await", e.term) for e in fwd}
+        aliases = {b.term[1] for b in s.of_kind("bind") if T.strip(b.term[2]) in replies}
+        pr = []
+        if not fwd:
+            pr.append(f"sim.{meth}() is never awaited")
+        for e in s.events:
+            if e.kind == "call" and e.term[1][0] == "attr" and e.term[1][2] in (_MUTATORS - {"set", "cancel"}) and (T.strip(e.term[1][1]) in replies or e.term[1][1] in aliases):
+                pr.append(f"{what} is modified ({T.show(e.term)[:60]}, line {e.lineno}): with an in-process simulator this changes the simulator's own object "
+                          "(a remote simulator's reply is a copy), so the same simulator behaves differently in-process and remote")
+            if e.kind in ("store", "del") and e.term[1][0] == "idx" and (T.strip(e.term[1][1]) in replies or e.term[1][1] in aliases):
+                pr.append(f"{what} is modified ({T.show(e.term)[:60]}, line {e.lineno}): with an in-process simulator this changes the simulator's own object")
+        c.add("raw", qn, f"{what} is only read", VIOLATED if pr else DISCHARGED, "; ".join(sorted(set(pr))), fi.loc)
